@@ -128,6 +128,9 @@ def main():
     for n in models.NEGATIVE:
         models.run_model(None, "quick", negative=n)
         log(f"named deviation {n}: found by TLC")
+    for n in models.PROOFS:
+        r = models.run_proof(n)
+        log(f"TLAPS {n}: {r['obligations_proved']} obligations proved ({r['wall_s']}s)")
     binding_selftest()
     log(f"setup done in {time.time() - t0:.1f}s")
 
